@@ -21,6 +21,10 @@ theorem sumFin_eq_sum (n : Nat) (f : Fin n → Rat) : sumFin n f = ∑ i, f i :=
     rw [Fin.foldl_succ_last, Fin.sum_univ_castSucc]
     rw [ih (fun i => f i.castSucc)]
 
+theorem sumFin_mul_const (n : Nat) (f : Fin n → Rat) (c : Rat) :
+    sumFin n (fun i => f i * c) = sumFin n f * c := by
+  rw [sumFin_eq_sum, sumFin_eq_sum, Finset.sum_mul]
+
 theorem sumList_eq_sum (l : List Rat) : sumList l = l.sum := by
   unfold sumList
   have : ∀ (l : List Rat) (a : Rat), l.foldl (· + ·) a = a + l.sum := by
